@@ -20,7 +20,12 @@ def slug (s : String) : String :=
   else if s == "unknown variant" then "unknown-variant"
   else if s.startsWith "tuple longer" then "tuple-longer"
   else if s.startsWith "strings carry" then "string-variant-data"
+  else if s.startsWith "unsupported" then "unsupported-pair"
+  else if s.startsWith "Unsupported date" || s.startsWith "Unsupported timestamp" || s.startsWith "Cannot convert" then "codec-range"
   else "other"
+
+/-- `mustFail` reasons that are C05's "no exact representation" (the others: the reader does not offer the pair) -/
+def isC05Reason (s : String) : Bool := !(s.startsWith "unsupported")
 
 /-- C18 on one error outcome: annotations name a `$`-rooted field path and a data type -/
 def annOk (impl : Json) : Bool :=
@@ -60,8 +65,7 @@ def checkOne (acc : Acc) (kind : String) (ty : Target) (what : String) (claim : 
   match claim with
   | .ok none => { acc with tags := "spec-na" :: acc.tags }
   | .ok (some d) =>
-    if dvalOpaque d then { acc with tags := "spec-na-codec" :: acc.tags }
-    else match impl.getObjVal? "ok" with
+    match impl.getObjVal? "ok" with
       | .ok j =>
         if dvalMatches d j then acc
         else ({ acc with c02 := "fail" }).note s!"C02/value/{kind}/{targetKind ty}"
@@ -70,8 +74,12 @@ def checkOne (acc : Acc) (kind : String) (ty : Target) (what : String) (claim : 
           s!"{what}: specification {(dvalToJson d).compress.take 300}, implementation {impl.compress.take 300}"
   | .error (.err why) =>
     if icls == "ok" then
-      ({ acc with c02 := "fail", c05 := "fail" }).note s!"C05/{slug why}/{kind}/{targetKind ty}"
-        s!"{what}: the value has no exact representation in the target ({why}) but the read returned {impl.compress.take 300}"
+      if isC05Reason why then
+        ({ acc with c02 := "fail", c05 := "fail" }).note s!"C05/{slug why}/{kind}/{targetKind ty}"
+          s!"{what}: the value has no exact representation in the target ({why}) but the read returned {impl.compress.take 300}"
+      else
+        ({ acc with c02 := "fail" }).note s!"C02/unsupported-pair-read/{kind}/{targetKind ty}"
+          s!"{what}: the specification lists this (target, column) pair as not offered by the reader, but the read returned {impl.compress.take 300}"
     else { acc with tags := s!"must-fail:{slug why}" :: acc.tags }
   | .error (.errCtx why _) =>
     if icls == "ok" then
@@ -132,12 +140,10 @@ def handle (j : Json) : Except String Verdict := do
     -- correspondence
     match compareRead m impl with
     | .agree => pure ()
-    | .na _ => acc := { acc with tags := "na-codec" :: acc.tags }
     | .differ why =>
       acc := ({ acc with agree := false }).note s!"C02/disagree/{kind}/{targetKind r.ty}/impl={icls}" s!"{what}: {why}"
     if icls == "panic" then
-      if modelIsOpaqueOk m then acc := { acc with tags := "codec-panic-na" :: acc.tags }
-      else acc := ({ acc with c16 := "fail", c02 := "fail" }).note s!"C02/panic/{kind}/{targetKind r.ty}" s!"{what}: {impl.compress.take 300}"
+      acc := ({ acc with c16 := "fail", c02 := "fail" }).note s!"C02/panic/{kind}/{targetKind r.ty}" s!"{what}: {impl.compress.take 300}"
     if icls == "err" && !annOk impl then
       acc := { acc with c18 := "fail", tags := "c18-ann" :: acc.tags }
     -- specification
